@@ -168,6 +168,11 @@ def build(driver, seed=3):
         # a value-equal twin (distinct object): never scheduled, must still be notified
         mc.add_move(UserMove("V"), criteria=UserCriteria("twin"), name="user_twin", probability=1e-9)
         mc.add_move(ExchangeMove(np.arange(3), Translation(), bias_towards_insert=1.0), criteria=UserCriteria("exch"), name="exch")
+        # one trial that deletes a particle and inserts another: a generic composite of a deleting and an inserting move
+        from quansino.moves.composite import CompositeMove
+
+        mc.add_move(CompositeMove([ExchangeMove(np.arange(3), Translation(), bias_towards_insert=0.0), ExchangeMove(np.arange(3), Translation(), bias_towards_insert=1.0)]),
+                    criteria=UserCriteria("swap"), name="swap")
     if driver in ("Isobaric", "Isotension"):
         mc.add_move(CellMove(IsotropicDeformation(0.03)), criteria=UserCriteria("cell"), name="cell")
         mc.add_move(UserMove("W"), criteria=UserCriteria("shear"), name="shear")
@@ -242,11 +247,15 @@ def run(tier: str) -> int:
                 for t in seg:
                     if t["acc"] and t["entry"] == "exch":
                         n_before += 1
-                        notes.append(("atoms", [n_before - 1]))
-                        notes.append(("atoms", [n_before - 1]))  # one per distinct user move (U and V)
+                        notes.append(("atoms", [n_before - 1], 0))
+                        notes.append(("atoms", [n_before - 1], 0))  # one per distinct user move (U and V)
+                    if t["acc"] and t["entry"] == "swap":
+                        # one atom removed, one appended: the count is unchanged, the new atom is the last one
+                        notes.append(("atoms", [n_before - 1], 1))
+                        notes.append(("atoms", [n_before - 1], 1))
                     if t["acc"] and t["entry"] in ("cell", "shear"):
-                        notes.append(("cell", None))
-                        notes.append(("cell", None))  # one per distinct user move (U and W)
+                        notes.append(("cell", None, 0))
+                        notes.append(("cell", None, 0))  # one per distinct user move (U and W)
                 if len(mc.move_history) != len(seg):
                     hist.append(("?", f"{len(mc.move_history)} trials recorded"))
                 if ser and si == 0:
@@ -256,6 +265,8 @@ def run(tier: str) -> int:
                     mc = type(mc).from_dict(d)
                     mc.atoms.calc = Harmonic(k=calc.k, centers=calc.centers, eps=calc.eps, cellk=calc.cellk)
                     g = install_rng(mc)
+            if ser:
+                mc.to_dict()  # serialized again at the end: every user component is asked again
             mc.close()
         except Exception as ex:  # noqa: BLE001
             outside = [e for e in LOG if e[0] in ("getattr", "setattr")]
@@ -300,12 +311,12 @@ def run(tier: str) -> int:
         k = 0
         for e in LOG:
             if e[0] == "on_atoms_changed" and (e[2] or e[3]):
-                kind, want = notes[k]
+                kind, want, nrem = notes[k][0], notes[k][1], (notes[k][2] if len(notes[k]) > 2 else 0)
                 k += 1
-                if kind != "atoms" or e[2] != want or e[3] != []:
-                    rep.violation(f"notification-arguments:on_atoms_changed:{driver}", f"{driver}: on_atoms_changed({e[2]}, {e[3]}) but the accepted insertion added atoms {want}", ctx)
+                if kind != "atoms" or e[2] != want or len(e[3]) != nrem:
+                    rep.violation(f"notification-arguments:on_atoms_changed:{driver}", f"{driver}: on_atoms_changed({e[2]}, {e[3]}) but the accepted trial added atoms {want} and removed {nrem}", ctx)
             elif e[0] == "on_cell_changed":
-                kind, want = notes[k]
+                kind = notes[k][0]
                 k += 1
                 if kind != "cell":
                     rep.violation(f"notification-arguments:on_cell_changed:{driver}", f"{driver}: on_cell_changed got a cell that is not the accepted one", ctx)
